@@ -253,6 +253,10 @@ pub fn edge_value_flows<S: ShortGroupSignatureScheme>(em: &mut Emitter, rng: &mu
         ("min-number-range-upper-only", Mix { n_creds: 1, n_claims: 4, age: i64::MIN, disclosed: d(&[]), commitment: Some(2), range: Some((None, Some(0))), ..Default::default() }),
         ("max-number-range", Mix { n_creds: 1, n_claims: 4, age: i64::MAX, disclosed: d(&[]), commitment: Some(2), range: Some((Some(i64::MAX - 3), None)), ..Default::default() }),
         ("min-number-verenc", Mix { n_creds: 1, n_claims: 4, age: i64::MIN, disclosed: d(&[]), verenc: Some((2, false)), ..Default::default() }),
+        ("everything-disclosed-3", Mix { n_creds: 1, n_claims: 3, age: 30, disclosed: d(&["id", "name", "age"]), ..Default::default() }),
+        ("everything-disclosed-6", Mix { n_creds: 1, n_claims: 6, age: 30, disclosed: d(&["id", "name", "age", "ssn", "level", "city"]), ..Default::default() }),
+        ("everything-disclosed-two-credentials", Mix { n_creds: 2, n_claims: 4, age: 30, disclosed: vec![vec!["id".into(), "name".into(), "age".into(), "ssn".into()], vec!["id".into(), "name".into(), "age".into(), "ssn".into()]], ..Default::default() }),
+        ("all-but-one-disclosed", Mix { n_creds: 1, n_claims: 5, age: 30, disclosed: d(&["id", "name", "age", "ssn"]), ..Default::default() }),
         ("six-credentials-one-equality", Mix { n_creds: 6, n_claims: 3, age: 30, disclosed: vec![vec![]; 6], equality: true, ..Default::default() }),
     ];
     if em.thorough() {
